@@ -257,13 +257,18 @@ def _fake_contact(tree):
     out += str_def("fakerClassAttrs", ast.unparse(module_constant(tree, "faker_class_attrs")), "ignore list")
     gf = find_func(fd, "_get_fake_data")
     wanted = []
+    n_ifs = 0
     for s in gf.body:
         if isinstance(s, ast.Assign) and ast.unparse(s.targets[0]) in ("name", "meth", "local_faker_vars"):
             wanted.append(ast.unparse(s))
-    gif = [n for n in gf.body if isinstance(n, ast.If)]
-    if not gif:
-        raise PinError("_get_fake_data: no if")
-    wanted.append("if " + ast.unparse(gif[0].test))
-    wanted += [ast.unparse(s) for s in gif[0].body]
+        elif isinstance(s, ast.If) and n_ifs < 2:
+            # in source order: the fall-back to the no-underscore key, then call/remember/return
+            n_ifs += 1
+            if s.orelse:
+                raise PinError("_get_fake_data: an `if` gained an else branch")
+            wanted.append("if " + ast.unparse(s.test))
+            wanted += ["  " + ast.unparse(b) for b in s.body]
+    if n_ifs != 2:
+        raise PinError("_get_fake_data: expected the fall-back `if` and the call `if`")
     out += strs_def("getFakeData", wanted, "lookup, call, remember, return")
     return out
